@@ -916,6 +916,20 @@ func (e *Engine) explore(st *State) {
 				e.rule.OnEnter(e, st, nfc)
 				continue
 			}
+			if cb, mc := e.syncCallback(in.Common()); cb != nil && e.rule.Inline(cb) && !fc.onStack(cb) {
+				// a standard-library higher-order function calls its function argument
+				// synchronously, in the caller's context: not at all …
+				alt := st.clone()
+				alt.top().idx++
+				e.explore(alt)
+				// … or (at least) once
+				t.idx++
+				nfc := &FrameCtx{id: fc.id + ">hof@" + in.(ssa.Value).Name() + ":" + cb.Name(), fn: cb, parent: fc, closure: mc, depth: fc.depth + 1}
+				st.stack = append(st.stack, ctl{fc: nfc, blk: cb.Blocks[0]})
+				e.Inlined[cb] = true
+				e.rule.OnEnter(e, st, nfc)
+				continue
+			}
 			t.idx++
 			continue
 		default:
@@ -923,6 +937,41 @@ func (e *Engine) explore(st *State) {
 			continue
 		}
 	}
+}
+
+// syncCallback: the call goes to a standard-library function known to invoke its function
+// argument synchronously (slices.ContainsFunc, sort.Slice, (*sync.Once).Do, …) and that
+// argument is a function of the analysed module; returns it (with its closure).
+func (e *Engine) syncCallback(c *ssa.CallCommon) (*ssa.Function, *ssa.MakeClosure) {
+	sc := c.StaticCallee()
+	if sc == nil || e.P.InScope(sc) {
+		return nil, nil
+	}
+	if _, isVal := c.Value.(*ssa.Function); !isVal {
+		return nil, nil
+	}
+	switch PkgOf(sc) {
+	case "slices", "sort", "maps", "strings", "bytes":
+	case "sync":
+		if !strings.HasSuffix(sc.Name(), "Do") {
+			return nil, nil
+		}
+	default:
+		return nil, nil
+	}
+	for _, a := range c.Args {
+		switch x := stripConv(a).(type) {
+		case *ssa.MakeClosure:
+			if fn, ok := x.Fn.(*ssa.Function); ok && e.P.InScope(fn) && len(fn.Blocks) > 0 {
+				return fn, x
+			}
+		case *ssa.Function:
+			if e.P.InScope(x) && len(x.Blocks) > 0 {
+				return x, nil
+			}
+		}
+	}
+	return nil, nil
 }
 
 // callArgs returns the values bound to the callee's parameters (receiver first for
